@@ -1,11 +1,11 @@
 """Batch side of the C12 drivers: build a small dataset and pipeline from a spec, run
-lenskit.batch.{recommend,score,predict} / BatchPipelineRunner and the single-query operations.
+lenskit.batch.{recommend,score,predict} (one operation) or a BatchPipelineRunner with several invocations
+in the given order, and the single-query operations.
 
 Used in-process by props/c12.py for n_jobs=1 and by c12_driver.py (own process) for pools.
 """
 
 from __future__ import annotations
-
 
 from lenskit.basic.bias import BiasScorer
 from lenskit.data import ItemList, QueryInput, RecQuery
@@ -16,23 +16,31 @@ class QueryFailure(Exception):
     pass
 
 
+FAILURES = {"QueryFailure": QueryFailure, "StopIteration": StopIteration, "KeyError": KeyError}
+
+
 class FailingBias(BiasScorer):
     "a scorer that fails for one user (importable, so that it can be rebuilt in pool workers)"
     fail_user = None
+    fail_exc = "QueryFailure"
 
     def __call__(self, query: QueryInput, items: ItemList) -> ItemList:
         if RecQuery.create(query).user_id == self.fail_user:
-            raise QueryFailure(f"no scores for user {self.fail_user}")
+            raise FAILURES[self.fail_exc](f"no scores for user {self.fail_user}")
         return super().__call__(query, items)
 
 
 class FailingKNN(ItemKNNScorer):
     fail_user = None
+    fail_exc = "QueryFailure"
 
     def __call__(self, query: QueryInput, items: ItemList) -> ItemList:
         if RecQuery.create(query).user_id == self.fail_user:
-            raise QueryFailure(f"no scores for user {self.fail_user}")
+            raise FAILURES[self.fail_exc](f"no scores for user {self.fail_user}")
         return super().__call__(query, items)
+
+
+ONAME = {"recommend": "recommendations", "score": "scores", "predict": "predictions"}
 
 
 def canon_il(il):
@@ -43,6 +51,10 @@ def canon_il(il):
     return {"ids": [int(x) for x in il.ids().tolist()],
             "scores": None if sc is None else np.asarray(sc, dtype=np.float32).view(np.uint32).tolist(),
             "ordered": bool(il.ordered)}
+
+
+def ops_of(spec):
+    return spec.get("ops") or [spec["op"]]
 
 
 def build(spec):
@@ -57,12 +69,17 @@ def build(spec):
     if spec.get("fail_user") is not None:
         scorer = FailingKNN(k=3, min_nbrs=1) if spec["scorer"] == "iknn" else FailingBias(damping=2)
         scorer.fail_user = spec["fail_user"]
+        scorer.fail_exc = spec.get("fail_exc") or "QueryFailure"
     else:
         scorer = {"pop": lambda: PopScorer(), "bias": lambda: BiasScorer(damping=2), "iknn": lambda: ItemKNNScorer(k=3, min_nbrs=1)}[spec["scorer"]]()
-    if spec["op"] == "predict":
+    ops = ops_of(spec)
+    kw = {} if spec.get("pipe_n") is None else {"n": spec["pipe_n"]}
+    if ops == ["predict"]:
         pipe = predict_pipeline(scorer)
+    elif len(ops) == 1:
+        pipe = topn_pipeline(scorer, **kw)
     else:
-        pipe = topn_pipeline(scorer, n=spec.get("pipe_n"))
+        pipe = topn_pipeline(scorer, predicts_ratings=True, **kw)        # recommender, scorer and rating-predictor
     pipe.train(ds)
     return ds, pipe
 
@@ -70,7 +87,7 @@ def build(spec):
 def test_input(spec):
     """keys -> the batch functions' test argument"""
     import numpy as np
-    from lenskit.data import ItemList, ItemListCollection
+    from lenskit.data import ItemListCollection
     form = spec["form"]
     keys = spec["keys"]
     if form == "ids":
@@ -83,42 +100,61 @@ def test_input(spec):
     return c
 
 
+def _collection(res):
+    return {"key_fields": list(res.key_fields), "keys": [[int(v) for v in k] for k in res.keys()], "lists": [canon_il(il) for il in res.lists()]}
+
+
 def run(spec):
     import numpy as np
     from lenskit import batch
-    from lenskit.data import ItemList
+    from lenskit.batch import BatchPipelineRunner
     from lenskit.operations import predict, recommend, score
     ds, pipe = build(spec)
     test = test_input(spec)
-    out = {"error": None}
-    op = spec["op"]
+    ops = ops_of(spec)
+    out = {"error": None, "outputs": []}
     try:
-        if op == "recommend":
-            res = batch.recommend(pipe, test, spec.get("n"), n_jobs=spec["n_jobs"])
-        elif op == "score":
-            res = batch.score(pipe, test, n_jobs=spec["n_jobs"])
+        if len(ops) == 1:
+            op = ops[0]
+            if op == "recommend":
+                res = batch.recommend(pipe, test, spec.get("n"), n_jobs=spec["n_jobs"])
+            elif op == "score":
+                res = batch.score(pipe, test, n_jobs=spec["n_jobs"])
+            else:
+                res = batch.predict(pipe, test, n_jobs=spec["n_jobs"])
+            out["outputs"] = [[ONAME[op], _collection(res)]]
         else:
-            res = batch.predict(pipe, test, n_jobs=spec["n_jobs"])
-        out["key_fields"] = list(res.key_fields)
-        out["keys"] = [[int(v) for v in k] for k in res.keys()]
-        out["lists"] = [canon_il(il) for il in res.lists()]
-    except Exception as e:
+            runner = BatchPipelineRunner(n_jobs=spec["n_jobs"])
+            for op in ops:
+                if op == "recommend":
+                    runner.recommend(n=spec.get("n"))
+                elif op == "score":
+                    runner.score()
+                else:
+                    runner.predict()
+            results = runner.run(pipe, test)
+            out["outputs"] = [[name, _collection(results.output(name))] for name in results.outputs]
+    except BaseException as e:
         out["error"] = type(e).__name__
         out["msg"] = str(e)[:200]
     # the corresponding single-query operation for each key in turn
-    single = []
+    single = {}
     uidx = spec["key_fields"].index("user_id") if "user_id" in spec["key_fields"] else None
-    for k, items in zip(spec["keys"], spec.get("items") or [None] * len(spec["keys"])):
-        try:
-            q = k[uidx] if uidx is not None else None
-            if op == "recommend":
-                r = recommend(pipe, q, spec.get("n"))
-            elif op == "score":
-                r = score(pipe, q, ItemList(item_ids=np.array(items, dtype=np.int64)))
-            else:
-                r = predict(pipe, q, ItemList(item_ids=np.array(items, dtype=np.int64)))
-            single.append(canon_il(r))
-        except Exception as e:
-            single.append({"error": type(e).__name__})
+    for op in ops:
+        rows = []
+        for k, items in zip(spec["keys"], spec.get("items") or [None] * len(spec["keys"])):
+            try:
+                q = k[uidx] if uidx is not None else None
+                il = None if items is None else ItemList(item_ids=np.array(items, dtype=np.int64))
+                if op == "recommend":
+                    r = recommend(pipe, q, spec.get("n"))
+                elif op == "score":
+                    r = score(pipe, q, il)
+                else:
+                    r = predict(pipe, q, il)
+                rows.append(canon_il(r))
+            except BaseException as e:
+                rows.append({"error": type(e).__name__})
+        single[ONAME[op]] = rows
     out["single"] = single
     return out
